@@ -22,6 +22,9 @@ ALG = ("algorithms/mod.rs", "algorithms/myers.rs", "algorithms/lcs.rs", "algorit
        "algorithms/hook.rs")
 PIPE = ("algorithms/compact.rs", "algorithms/replace.rs", "algorithms/capture.rs", "common.rs", "types.rs")
 A_ALL = ["A1", "A2", "A3", "A4", "A5", "A7", "A8", "A9", "A10"]
+# Rules that are necessary for the captured op list to be a valid edit script at all; every property that reads text
+# back out of the ops (C04 reconstruction, C05 hunks, C17 remapping) depends on them.
+SCRIPT_VALID = ["E1", "E2", "E3", "G3", "G5", "G6", "G7", "B5", "F1", "F5", "F13"]
 
 
 def a_rules(files, rules=A_ALL):
@@ -31,7 +34,7 @@ def a_rules(files, rules=A_ALL):
 PROPERTIES = {
     "C01": {
         "level": "other",
-        "rules": a_rules(ALG) + ["E1", "E2", "E3", "B6"],
+        "rules": a_rules(ALG) + ["E1", "E2", "E3", "B6", "B7", "F15", "F17"],
         "explanation": "Decided for all inputs: (1) every index handed to a diff hook by the three algorithms, every index "
                        "into a caller-ranged sequence and every range passed between the algorithm functions is an absolute "
                        "position of the right side and coordinate frame (A1-A5, A7: sort inference over the type-checked HIR "
@@ -42,7 +45,7 @@ PROPERTIES = {
     },
     "C02": {
         "level": "other",
-        "rules": ["F1", "F5", "B5", "G3", "G5", "G6", "F13", "F16", "E2", "E3"] + a_rules(PIPE + ALG),
+        "rules": ["F1", "F5", "B5", "G3", "G5", "G6", "G7", "F13", "F16", "E2", "E3"] + a_rules(PIPE + ALG),
         "explanation": "Decided: the capture pipeline is Compact(Replace(Capture)) and returns that hook's ops (F1); Compact "
                        "replays every buffered op once, in order, then finishes, Replace flushes in order (B5); every op "
                        "constructed or forwarded in compact/replace/capture/common/types takes old-side fields from old-"
@@ -53,7 +56,7 @@ PROPERTIES = {
     "C03": {
         "level": "other",
         "rules": [(r, infn("lcs::make_table", "lcs::diff_deadline")) for r in ("A2", "A3", "A5", "A10")] +
-                 ["G3", "F13", ("A7", infn("myers::find_middle_snake"))],
+                 ["G3", "F13", "F17", "F18", "F19", ("A7", infn("myers::find_middle_snake"))],
         "explanation": "Decided (one necessary condition only): the LCS table is built by reading the sequences through "
                        "positions derived from the requested ranges, and the walk reads the table with the same key slot "
                        "order it was written with (A2/A3/A5 restricted to lcs::make_table and lcs::diff_deadline).  "
@@ -62,7 +65,7 @@ PROPERTIES = {
     },
     "C04": {
         "level": "other",
-        "rules": ["F4", "F2", "F11", "F12", "E1", "E2", "E3", ("A6", infile("text/abstraction.rs"))] +
+        "rules": ["F4", "F2", "F11", "F12", "F20", "F21"] + SCRIPT_VALID + [("A6", infile("text/abstraction.rs"))] +
                  a_rules(("iter.rs", "text/mod.rs") + ALG + PIPE),
         "explanation": "Decided: every Change constructor carries exactly the indices its tag allows and takes its value from "
                        "the proper side, per DiffTag arm (F4); both texts are tokenized by the same tokenizer in the right "
@@ -73,7 +76,7 @@ PROPERTIES = {
     },
     "C05": {
         "level": "other",
-        "rules": ["D1", "F8", "F10", "G2", "F7"] + a_rules(("udiff.rs",)),
+        "rules": ["D1", "F8", "F10", "G2", "F7"] + SCRIPT_VALID + a_rules(("udiff.rs",)),
         "explanation": "Decided: no lossy decoding is reachable from the byte writers and each line is written with "
                        "write_all(as_bytes(value)) (D1: call graph incl. fmt::Display edges); Display and to_writer emit the "
                        "same (guard, template) sequence incl. header-once and missing-newline logic (F8); hunk header extents "
@@ -84,7 +87,7 @@ PROPERTIES = {
     },
     "C06": {
         "level": "other",
-        "rules": ["F7", "F11", "F12", ("A6", infile("text/abstraction.rs"))],
+        "rules": ["F7", "F11", "F12", "F20", "F21", ("A6", infile("text/abstraction.rs"))],
         "explanation": "Decided (necessary conditions only): the str and [u8] tokenizers use the same break characters and "
                        "character-class predicates (F7), and token boundaries are byte offsets advanced by byte lengths, never "
                        "by counts (A6 in abstraction.rs).  Losslessness, non-emptiness and token shapes are NOT examined.",
@@ -114,7 +117,7 @@ PROPERTIES = {
     },
     "C09": {
         "level": "other",
-        "rules": ["E1", "B5", "F1", "G3", "G6"],
+        "rules": ["E1", "B5", "F1", "G3", "G5", "G6", "G7", "F13", "F16"],
         "explanation": "Decided: no algorithm emits an empty op (E1); Replace merges runs and emits delete/replace before "
                        "insert, flushing in order (B5); both adapters are in the capture pipeline, Compact outside Replace (F1)."
                        "  Alternation after compaction and 'insertion sits at its latest position' are NOT examined.",
@@ -122,7 +125,7 @@ PROPERTIES = {
     },
     "C10": {
         "level": "other",
-        "rules": ["F5", "B5", "G3", "G5", "G6", "F13", "F16", ("B4", infile("algorithms/compact.rs", "algorithms/capture.rs"))] +
+        "rules": ["F5", "B5", "G3", "G5", "G6", "G7", "F13", "F16", ("B4", infile("algorithms/compact.rs", "algorithms/capture.rs"))] +
                  a_rules(("algorithms/compact.rs", "algorithms/replace.rs", "types.rs")),
         "explanation": "Decided (structural parts only): no slot or side mix-up in any compaction arm or in Replace (A1-A5, A7), "
                        "helpers move start and length consistently (F5), Replace/Compact typestate (B5), Compact buffers exactly "
@@ -142,7 +145,7 @@ PROPERTIES = {
     },
     "C13": {
         "level": "other",
-        "rules": ["F4", "F3"] + a_rules(("iter.rs", "types.rs")),
+        "rules": ["F4", "F3", "F22", "B4"] + a_rules(("iter.rs", "types.rs")),
         "explanation": "Decided: per-variant tables of ChangesIter::next, as_tag_tuple, apply_to_hook and both iter_slices "
                        "(F3/F4: tags, Some/None indices, value side, Replace = deletes then inserts, twins identical); old "
                        "cursor indexes old, new cursor indexes new, apply_to_hook passes fields in slot order (A1/A2/A4).  "
@@ -161,7 +164,7 @@ PROPERTIES = {
     },
     "C15": {
         "level": "other",
-        "rules": ["F15", "B6"] + a_rules(("algorithms/patience.rs", "algorithms/utils.rs", "algorithms/myers.rs")),
+        "rules": ["F15", "B6", "B7", "F17"] + a_rules(("algorithms/patience.rs", "algorithms/utils.rs", "algorithms/myers.rs")),
         "explanation": "Decided (one clause): anchors are translated from unique-list coordinates to original coordinates "
                        "only through original_index(), per side and per frame (A1-A5, A7 with frames U vs F0 in patience.rs "
                        "and unique()).  Maximality and the uniqueness filter are NOT examined.",
@@ -179,7 +182,7 @@ PROPERTIES = {
     },
     "C17": {
         "level": "other",
-        "rules": ["F3", "F2", "E1"] + a_rules(("utils.rs", "text/mod.rs")) + [("A6", infile("src/utils.rs"))],
+        "rules": ["F3", "F2"] + SCRIPT_VALID + a_rules(("utils.rs", "text/mod.rs")) + [("A6", infile("src/utils.rs"))],
         "explanation": "Decided: source.slice receives byte offsets accumulated from token byte lengths (A6); the old remapper "
                        "is built from old text + old tokens, new from new (A3/A4); iter_slices twin agreement (F3); helper "
                        "wiring (F2).  Reconstruction and 'never panics' are NOT examined.",
@@ -187,7 +190,7 @@ PROPERTIES = {
     },
     "C20": {
         "level": "other",
-        "rules": ["D2", "D3", "D4", "F7", "F6", "F14", "C5"],
+        "rules": ["D2", "D3", "D4", "F7", "F6", "F14", "C5", "F20", "F21"],
         "explanation": "Decided: the only order-sensitive hash iteration is sorted before use (D2); no clock/thread/env/"
                        "random/address dependence outside the deadline probe (D3, C5); items are only compared with ==/!= and "
                        "hashed, never ordered or formatted (D4: relabelling invariance); str and [u8] tokenizers classify "
@@ -212,4 +215,10 @@ EXCEPTIONS = {
         "unreachable: in the (Delete, Equal) arm the suffix is measured against the Delete's new range, which is always "
         "empty, so suffix_len is 0 and the branch that builds this Equal is never taken; the expression is wrong-looking "
         "dead code, no captured op can carry it",
+}
+# An exception holds only while its premise does (engines.tables.PREMISES, re-evaluated on every run): if the arm starts
+# measuring the suffix against a range that can be non-empty, the branch becomes reachable and the finding is reported.
+EXCEPTION_PREMISES = {
+    "A4:algorithms::compact::shift_diff_ops_up:one-sided-len:DiffOp.len:old_range.len()-suffix_len":
+        "delete_arm_suffix_on_empty_range",
 }
